@@ -33,7 +33,7 @@ var (
 
 func c01Acceptable(err error) bool { return err == nil || err == c01ErrOK }
 
-//verif:entry tier=quick,thorough float=mono steps=2000000 cover=rejected,admitted,panicked,ctxdone,fallback
+//verif:entry native tier=quick,thorough float=mono steps=2000000 cover=rejected,admitted,panicked,ctxdone,fallback
 //verif:doc accounting: real NewBreaker(); window preloaded with F in {0, 30} failures in the current bucket (so both admission outcomes occur, the random draw being arbitrary); entry point one of the 10 Do*/Allow* methods; request outcome one of nil / acceptable error / unacceptable error / panic; fallback present or absent (where the entry point has one); context done or not (Ctx variants); Allow followed by Accept or Reject.
 func Verif_C01_Accounting() {
 	brk := NewBreaker(WithName("verif")).(*circuitBreaker)
@@ -155,7 +155,7 @@ func Verif_C01_Accounting() {
 	rt.Assert((dSucc == 1) == wantSucc && (dFail == 1) == !wantSucc, "recorded as success iff the acceptability predicate accepts the error")
 }
 
-//verif:entry tier=quick,thorough steps=2000000 cover=mixed
+//verif:entry native tier=quick,thorough steps=2000000 cover=mixed
 //verif:doc window summary: real history() over the real 40-bucket window; 3 buckets at symbolic-chosen distinct positions carry symbolic (Success, Failure, Drop) counts in 0..2^20 with Sum = their total (invariant), the rest are zero; accepts/total compared with the harness's own sums, failing/working bucket counters within 0..40.
 func Verif_C01_WindowSummary() {
 	gb := newGoogleBreaker()
